@@ -69,6 +69,33 @@ def _one(prop, kind, idx, rel, old, new, expect):
         shutil.rmtree(d, ignore_errors=True)
 
 
+def _one_patch(prop, name):
+    """an independently produced change kept under /verif/seeded/<name>/ (patch.diff, applied to a scratch copy)"""
+    sd = os.path.join(VERIF, "seeded", name)
+    meta = json.load(open(os.path.join(sd, "meta.json")))
+    expected = (meta.get("own_check") or {}).get("exit") == 1
+    d = tempfile.mkdtemp(prefix="aoself_%s_" % prop)
+    try:
+        shutil.copytree(os.path.join(REPO, "aotools"), os.path.join(d, "aotools"), ignore=shutil.ignore_patterns("__pycache__"))
+        ap = subprocess.run(["git", "apply", "--whitespace=nowarn", os.path.join(sd, "patch.diff")], cwd=d, capture_output=True, text=True)
+        if ap.returncode:
+            return dict(kind="independent", idx=name, rel=name, status="not-applicable", why="patch no longer applies to the current tree")
+        env = dict(os.environ, AOTOOLS_REPO=d, VERIF_EVIDENCE_DIR=os.path.join(d, "evidence"), VERIF_TIER="quick")
+        r = subprocess.run([PY, os.path.join(VERIF, "run.py"), prop, "--tier", "quick"], env=env, capture_output=True, text=True, timeout=600)
+        rules = sorted(set(l.split()[2] for l in r.stdout.splitlines() if l.startswith("FINDING ") and len(l.split()) > 2))
+        out = dict(kind="independent", idx=name, rel=name, exit=r.returncode, rules=rules, edit="seeded/%s/patch.diff" % name)
+        if r.returncode == 1:
+            out["status"] = "detected"
+        elif expected:
+            out["status"] = "MISSED"
+            out["output_tail"] = r.stdout[-600:]
+        else:
+            out["status"] = "known-miss"
+        return out
+    finally:
+        shutil.rmtree(d, ignore_errors=True)
+
+
 def run(prop):
     t0 = time.time()
     v = _load()
@@ -80,16 +107,34 @@ def run(prop):
         import random
         random.Random(seed).shuffle(jobs)
     results = []
-    with ThreadPoolExecutor(max_workers=min(16, max(1, len(jobs)))) as ex:
+    indep = []
+    sroot = os.path.join(VERIF, "seeded")
+    if os.path.isdir(sroot):
+        for name in sorted(os.listdir(sroot)):
+            mp = os.path.join(sroot, name, "meta.json")
+            try:
+                if json.load(open(mp)).get("property") == prop:
+                    indep.append(name)
+            except (OSError, ValueError):
+                pass
+    with ThreadPoolExecutor(max_workers=min(16, max(1, len(jobs) + len(indep)))) as ex:
         futs = [ex.submit(_one, prop, *j) for j in jobs]
+        futs2 = [ex.submit(_one_patch, prop, n) for n in indep]
         for f in futs:
             results.append(f.result())
+        ind_results = [f.result() for f in futs2]
     det = [r for r in results if r["status"] == "detected"]
     missed = [r for r in results if r["status"] == "MISSED"]
     silent = [r for r in results if r["status"] == "silent"]
     alarm = [r for r in results if r["status"] == "FALSE-ALARM"]
     na = [r for r in results if r["status"] == "not-applicable"]
-    summary = {"seeded_variants": len(seeded), "seeded_detected": len(det), "seeded_missed": len(missed),
+    ind_det = [r for r in ind_results if r["status"] == "detected"]
+    ind_missed = [r for r in ind_results if r["status"] == "MISSED"]
+    missed = missed + ind_missed
+    summary = {"independent_changes": len(ind_results), "independent_detected": len(ind_det),
+               "independent_known_misses": [r["idx"] for r in ind_results if r["status"] == "known-miss"],
+               "independent_not_applicable": [r["idx"] for r in ind_results if r["status"] == "not-applicable"],
+               "independent_rules": {r["idx"]: r.get("rules") for r in ind_det},"seeded_variants": len(seeded), "seeded_detected": len(det), "seeded_missed": len(missed),
                "benign_variants": len(benign), "benign_silent": len(silent), "benign_false_alarms": len(alarm),
                "not_applicable": len(na), "wall_s": round(time.time() - t0, 2),
                "samples": [{k: r[k] for k in ("kind", "rel", "edit", "status", "rules") if k in r} for r in (det[:4] + silent[:2])],
@@ -105,9 +150,10 @@ def run(prop):
     except Exception as e:
         print("ANALYSIS-ERROR property=%s cannot update evidence with self-validation: %s" % (prop, e))
         return 2
-    print("%s self-validation: %d/%d seeded variants detected, %d/%d benign variants silent, %d not applicable (%.1fs)"
+    print("%s self-validation: %d/%d seeded variants detected, %d/%d benign variants silent, %d not applicable; "
+          "%d/%d independently produced changes detected (%.1fs)"
           % (prop, len(det), len(seeded) - len([r for r in na if r["kind"] == "seeded"]), len(silent),
-             len(benign) - len([r for r in na if r["kind"] == "benign"]), len(na), time.time() - t0))
+             len(benign) - len([r for r in na if r["kind"] == "benign"]), len(na), len(ind_det), len(ind_results), time.time() - t0))
     if missed or alarm:
         for r in missed:
             print("SELFTEST-FAILURE property=%s seeded variant not detected: %s :: %s (exit %s, rules %s)"
